@@ -186,6 +186,10 @@ theorem ainv_step {s s' : St} {l : Label} (h : Inv s) (ha : AInv s) (hs : step s
           exact ⟨fun k hk => by simp at hk, fun _ => a2 (by rw [hw]; rfl), fun hc => by simp [hx] at hc⟩
         · rename_i k0 hw
           exact ⟨fun k hk => by simp at hk, fun _ => a2 (by rw [hw]; rfl), fun hc => by simp [hx] at hc⟩
+        · rename_i k0 hw
+          exact ⟨fun k hk => by simp at hk, fun _ => a2 (by rw [hw]; rfl), fun hc => by simp [hx] at hc⟩
+        · rename_i hw
+          exact ⟨fun k hk => by simp at hk, fun _ => a2 (by rw [hw]; rfl), fun hc => by simp [hx] at hc⟩
         · rename_i hw
           refine ⟨fun k hk => ?_, fun _ => a2 (by rw [hw]; rfl), fun hc => by simp [hx] at hc⟩
           revert hk; simp only; split <;> simp
@@ -195,6 +199,9 @@ theorem ainv_step {s s' : St} {l : Label} (h : Inv s) (ha : AInv s) (hs : step s
       split at hd
       · simp only [Option.some.injEq] at hd; subst hd
         rename_i hw
+        exact ⟨fun k hk => by simp at hk, fun _ => a2 (by rw [hw]; rfl), fun hc => by simp [hx] at hc⟩
+      · simp only [Option.some.injEq] at hd; subst hd
+        rename_i k0 hw
         exact ⟨fun k hk => by simp at hk, fun _ => a2 (by rw [hw]; rfl), fun hc => by simp [hx] at hc⟩
       · split at hd <;> simp at hd; subst hd
         exact ⟨fun k hk => by simp at hk, fun hp => by simp [SPC.preAbort] at hp, fun hc => by simp [hx] at hc⟩
